@@ -6,7 +6,7 @@ From Coq Require Import List NArith ZArith Bool Permutation.
 Import ListNotations.
 Require Import MV.Common.Interleave MV.C10.Model MV.C10.Spec MV.C10.Exec
                MV.C10.ProofsConc MV.C10.ProofsConc2 MV.C10.ProofsSeq MV.C10.ExecProofs
-               MV.C10.ProofsBound MV.C10.ProofsRefine MV.C10.ProofsWire MV.C10.ProofsSound MV.C10.ProofsSuffix.
+               MV.C10.ProofsBound MV.C10.ProofsRefine MV.C10.ProofsWire MV.C10.ProofsSound MV.C10.ProofsSuffix MV.C10.ProofsAbs MV.C10.ProofsCompose.
 Open Scope N_scope.
 
 (* counters driven only by increments, any number of updating and flushing threads, every schedule,
@@ -219,3 +219,54 @@ Theorem C10_idle_once_suffix : forall fx f c0 s0 c sched,
   exists s1 i1, (s1 = s0 \/ exists d, s1 = d :: s0) /\ Qinv c0 s1 i1 c' /\
                 (sent (fst c') = s1 \/ (i1 = false /\ sent (fst c') = 0 :: s1)).
 Proof. exact idle_once_suffix. Qed.
+
+(* ---------------------------------------------------------------- round 4 *)
+
+(* (a) absolutes under concurrency - strongest statement proved.  Programs without increments
+   (absolute values <= A < 2^64), any number of updating threads, ONE counter-flushing thread f,
+   repaired code, every schedule none of whose configurations is HAZARDOUS (a flush between its
+   1008 load and 1009 swap coexisting with a thread between the 1005 and 1006 stores of a re-basing
+   absolute, or two threads inside such a window - for a completed run exactly the step pattern of
+   the open class C10-rebase-straddle): every delta sent / returned / dropped is exact and <= A (no
+   wrapped delta), current <= A, last <= current whenever no re-basing window is open, and inside
+   the window last is the re-basing value.
+   NOT proved: the conservation identity (sum of deltas + current - last = running max - base) for
+   concurrent schedules: with two updating threads it is false even outside the class (a non-first
+   absolute's fetch_max can land before the re-basing stores and is then overwritten, or is flushed
+   against last = 0); and the formal link "known_class c = None -> safe" (argued in ProofsAbs.v). *)
+Theorem C10_absolute_no_wrap_hazard_free : forall A, A < two64 ->
+  forall f ps sched, Forall (abs_prog A) ps -> one_flusher f ps -> safe (init_config ps) sched ->
+  let c := fst (exec (step all_fixed) site (init_config ps) sched) in
+  Forall (fun d => d <= A) (sent (fst c) ++ rawd (fst c) ++ lost (fst c)) /\
+  cur (cnt (fst c)) <= A /\
+  (~ W (snd c) -> last (cnt (fst c)) <= cur (cnt (fst c))) /\
+  (forall u l v, nth_error (snd c) u = Some l -> pcl l = PB3 true v -> last (cnt (fst c)) = v).
+Proof. exact absolute_no_wrap_hazard_free. Qed.
+
+(* (c) idle-once suffix with a counter flush already in flight when the updates stop: at most ONE
+   more delta (the in-flight one), then the behaviour of C10_idle_once_suffix *)
+Theorem C10_idle_once_suffix_in_flight : forall fx f c0 s0 c sched,
+  PreIn f c0 s0 c ->
+  let c' := fst (exec (step fx) site c sched) in
+  (PreIn f c0 s0 c' /\ sent (fst c') = s0) \/
+  exists s0', (s0' = s0 \/ exists d, s0' = d :: s0) /\
+    ((Pre f c0 s0' c' /\ sent (fst c') = s0') \/
+     exists s1 i1, (s1 = s0' \/ exists d, s1 = d :: s0') /\ Qinv c0 s1 i1 c' /\
+                   (sent (fst c') = s1 \/ (i1 = false /\ sent (fst c') = 0 :: s1))).
+Proof. exact idle_once_suffix_in_flight. Qed.
+
+(* (b) composition for sequential cases, per-key conjunct: the model's run of EVERY sequential case
+   (max payload < 2^32, counter values < 2^64, sampling windows within the reservoir) is an OSeq
+   (no panic) on which the counter, gauge and histogram walkers of spec_ok accept what obs_counter /
+   obs_gauge / obs_hist read back from the assembled message lists, for every key.
+   Full statement  forall c, wf c -> spec_ok c (run_case c) = true  still missing its other conjunct
+   [flushes_ok] on the model: msgs_wf (no duplicate (kind,key), counter values < 2^64), ts_ok (from
+   C10_timestamp_iff_documented), and frame_ok = C10_wire_chain + the one-line property of C09's
+   rendered bodies; and the scheduled cases. *)
+Theorem C10_spec_ok_on_model_keys : forall c, o_max c < 4294967296 -> ops_wf c -> hist_wf c ->
+  exists fl, run_case (CSeq c) = OSeq fl /\
+    forallb (fun k => counter_ok (flat_map (projC k) (o_ops c)) (obs_counter k fl)
+                      && gauge_ok (flat_map (projG k) (o_ops c)) (obs_gauge k fl)
+                      && histogram_ok (o_samp c) (o_rsv c) (flat_map (projH k) (o_ops c)) (obs_hist k fl))
+            (keyids c) = true.
+Proof. exact key_clauses_on_run. Qed.
